@@ -44,7 +44,7 @@ def swap(ctx):
     runs = ctx.pick(2, 10)
     for k in range(runs):
         r = ctx.gotest("route", FILES, "^TestVerifC02Swap$", race=True, timeout=600,
-                       env={"GOMAXPROCS": [16, 4, 2][k % 3], "VERIF_WRITES": 60, "VERIF_READS": 50})
+                       env={"GOMAXPROCS": [16, 4, 2][k % 3], "VERIF_WRITES": 40, "VERIF_READS": 30})
         if "WARNING: DATA RACE" in r.out:
             ctx.violation({"sub": "swap", "race": True}, "data race between table installation and lookups:\n" + r.out[:3000],
                           replay={"sub": "swap-race", "case": None})
@@ -73,7 +73,7 @@ def swap(ctx):
             v2 = validate(ctx, bad)
             if v2 is not None and v2.ok:
                 ctx.inconclusive("binding self-test (swap): a trace with a mixed answer was accepted")
-    ctx.log("swap: %d recorded runs (8 readers x 50 lookups x 3 probes, 61 installs, -race) accepted by TableSwap_Trace" % runs)
+    ctx.log("swap: %d recorded runs (8 readers x 30 lookups x 5 probes, 41 installs, -race) accepted by TableSwap_Trace" % runs)
     return True
 
 
